@@ -140,7 +140,7 @@ def shrink_trial(ctx, line, want, budget_s=60):
     def fails(cands):
         ls = [re.sub(r"k=\d+", "k=%d" % len(o), re.sub(r"lag=(\d+)", lambda mm: "lag=%d" % min(int(mm.group(1)), len(o)), head)) + " ; " + " ; ".join(o) for o in cands]
         rs = T.run_harness(ctx.bin_path("h_restart"), ls, os.path.join(ctx.tmp, "shrink"), "s", jobs=core.NPROC, timeout=120)
-        return [any(v["judge"] == want for v in T.judge(r)[0]) for r in rs], ls
+        return [any(v["judge"] == want and not (v.get("key") and ctx.known_match(v["key"])) for v in T.judge(r)[0]) for r in rs], ls
 
     cur = ops
     changed = True
@@ -184,6 +184,7 @@ def run(ctx):
     results = run_trials(ctx, lines, "main")
     tot = {}
     failing = []
+    known_hits = 0
     distinct = set()
     for i, (l, r) in enumerate(zip(lines, results)):
         v, st = T.judge(r)
@@ -192,7 +193,13 @@ def run(ctx):
         if st["stale_channels"] or st["replayed_updates"] or st["inflight_at_crash"] or st["redelivery_checked"] or st["recrash"]:
             distinct.add(json.dumps([meta[i]["scenario"], r.get("k"), r.get("lag"), r.get("mon"), r.get("pre"), r.get("recrash"), r.get("disk")], sort_keys=True))
         if v:
-            failing.append((i, v))
+            unknown = [x for x in v if not (x.get("key") and ctx.known_match(x["key"]))]
+            for x in v:
+                if x.get("key") and ctx.known_match(x["key"]):
+                    known_hits += 1
+                    ctx.violation(x["what"], {}, True, key=x["key"])
+            if unknown:
+                failing.append((i, unknown))
     ctx.coverage["evaluations"] = len(lines)
     ctx.coverage["distinct_nontrivial"] = len(distinct)
     ctx.coverage["rule"] = ("every step boundary of every generated scenario x manager lags {0,1,2,3,5,8,13,all} x monitor choice {last completed, all in-flight landed, seeded mix} "
@@ -201,6 +208,7 @@ def run(ctx):
     ctx.coverage["enumeration"] = {"scenarios": nsc, "trials": len(lines), "stats": tot,
                                    "note": "validation on real nodes, not part of the Coq obligations"}
     ctx.coverage["traces_validated_against_impl"] = len(lines)
+    ctx.coverage["trials_hitting_known_findings"] = known_hits
     good = [r for r in results if not r.get("panic")]
     if good:
         ctx.samples.append({"trial": lines[results.index(good[len(good) // 2])][:400], "result": T.summarize(good[len(good) // 2])})
@@ -223,7 +231,7 @@ def run(ctx):
         except Exception as ex:
             ctx.log("shrink failed:", ex)
         rr = T.run_harness(ctx.bin_path("h_restart"), [small], os.path.join(ctx.tmp, "shrink"), "final", jobs=1)[0]
-        vv = T.judge(rr)[0] or v
+        vv = [x for x in T.judge(rr)[0] if not (x.get("key") and ctx.known_match(x["key"]))] or v
         ctx.violation("C10 violated on the implementation (%s): %s" % (vv[0]["judge"], vv[0]["what"]),
                       {"broken": "implementation-side judge (%s)" % vv[0]["judge"], "trial": small, "violations": vv[:5], "result": T.summarize(rr),
                        "replay_cmd": "printf '%%s\\n' '%s' > t.txt && %s t.txt out.jsonl && cat out.jsonl" % (small, ctx.bin_path("h_restart"))}, True)
@@ -237,7 +245,7 @@ def run(ctx):
         xr = run_trials(ctx, xl, "search")
         found = None
         for l, r in zip(xl, xr):
-            v = T.judge(r)[0]
+            v = [x for x in T.judge(r)[0] if not (x.get("key") and ctx.known_match(x["key"]))]
             if v:
                 found = (l, r, v)
                 break
